@@ -33,6 +33,9 @@ Members2 == <<S("str", "a"), S("int", "1")>>
 \* C02: keys drawn from the characters the path syntax defines an escape for
 KeysPunct == <<S("str", "."), S("str", "/"), S("str", "["), S("str", "]"), S("str", "("), S("str", ")"), S("str", "'"), S("str", "\""),
               S("str", " "), S("str", "^"), S("str", "$"), S("str", "%"), S("str", "a.b"), S("str", "/x"), S("str", "a b"), S("str", "x/y"), S("str", "[0]")>>
+\* thorough tier: documents of 4 nodes over half of the punctuation keys (all 17 keys at 4 nodes does not finish: > 180 000
+\* states at a falling rate; every key is met at 3 nodes by MC_Query_punct)
+KeysPunctT == <<S("str", "."), S("str", "/"), S("str", "["), S("str", "("), S("str", "'"), S("str", " "), S("str", "a.b"), S("str", "x/y"), S("str", "[0]")>>
 Scalars1 == <<S("int", "1")>>
 MembersPunct == <<S("str", "a.b"), S("str", "x y"), S("str", "[z]")>>
 
